@@ -477,7 +477,11 @@ def explore(fn, params, prefix=(), regions=None, tier="quick", max_paths=10**9, 
         if agg["paths"] >= max_paths or time.time() > deadline:
             agg["leftover"] = stack
             break
-        pre = stack.pop()
+        # shallowest pending prefix first (ties: the most recent): the alternatives of the early decisions - the environment choices that
+        # fix the structure of the input - are taken before the alternatives of deep, value-dependent forks, so that a unit that hits
+        # its path cap has at least visited every structural combination it could
+        i = min(range(len(stack) - 1, -1, -1), key=lambda j: len(stack[j]))
+        pre = stack.pop(i)
         rec = run_path(fn, params, pre, regions, tier, deadline, qtimeout_ms)
         agg["paths"] += 1
         agg[rec["status"]] += 1
